@@ -292,16 +292,20 @@ def shownName : Option RState → String
   | none => "none" | some .notFound => "not-found" | some .valid => "valid"
   | some .invalidAsn => "invalid" | some .invalidLen => "invalid"
 
-/-- the speaker's AS in the harness's `Global` -/
+/-- the speaker's AS (the harness starts BGP with it) -/
 def speakerAs : Nat := 65000
 
+/-- every IPv4 / IPv6 route has a validation state; a case carries IPv4 VRPs only, so no VRP covers an IPv6
+    route -/
 def checkRpki (x : ApiNlri) (sent : List ApiAttr) (vrps : List Vrp) (shown : Option RState) : Verdict :=
-  match x, vrps with
-  | .prefix (.ip4 a) m, _ :: _ =>
-      let want := rpkiExpected vrps a m (routeOrigin speakerAs sent)
-      if shownName shown = want then .ok
-      else .fail ("rpki-shown-" ++ shownName shown ++ "-expected-" ++ want)
-  | _, _ => .ok
+  let want : Option String :=
+    match x with
+    | .prefix (.ip4 a) m => some (rpkiExpected vrps a m (routeOrigin speakerAs sent))
+    | .prefix (.ip6 _) _ => some "not-found"
+    | _ => none
+  match want with
+  | some w => if shownName shown = w then .ok else .fail ("rpki-shown-" ++ shownName shown ++ "-expected-" ++ w)
+  | none => .ok
 
 def check : Case → Obs → Verdict
   | _, .unmodelled => .ok
